@@ -360,9 +360,26 @@ def run(R):
         R.check(okx, "C09-wiring", "sampler_z -> ber_exp (x)", "x = (z - (mu - floor(mu)))^2 / (2 sigma^2) - z0^2 / (2 sigma_max^2) (identity test)", whyx, key="x")
     else:
         R.violation("C09-wiring", "sampler_z", "no call to ber_exp observed", key="ccs")
-    retst = [dd for dd in draws if dd[0] == "ret"]
-    R.check(retst and all(dd[1] == (1, 1) for dd in retst), "C09-wiring", "sampler_z return", "a value is returned only where ber_exp answered true",
-            f"return reached with ber_exp's answer in {[dd[1] for dd in retst]}", key="ret-guard")
+    # the rejection guard, semantically: with ber_exp replaced by a stand-in that always answers `false` sampler_z has no
+    # return at all (it can only loop), with one that always answers `true` it returns
+    import re as _re
+    res_g = {}
+    for ans in (0, 1):
+        def m_ber(E, stt, fr, bi, callee, args, dest_ty, ans=ans):
+            return [(E.ctx.const_int(stt, ans, dest_ty), stt)]
+        ctx.models.table[:0] = [(_re.compile(_re.escape(bexp.name) + "$"), m_ber)]
+        ctx.models.cache.clear()
+        st = St()
+        rng = S.cell(st, "rng", Md("rng", {"origin": "param", "site": None}), mut=True)
+        ctx.quiet += 1
+        try:
+            res_g[ans] = len(S.run(sz, [Fl(-math.inf, math.inf, False, "mu"), Fl(smin, SIGMA_MAX, False, "sigma"), Fl(smin, max(SPEC[512]["sigmin"], SPEC[1024]["sigmin"]), False, "sigma_min"), rng], st))
+        finally:
+            ctx.quiet -= 1
+            del ctx.models.table[0]
+            ctx.models.cache.clear()
+    R.check(res_g.get(0) == 0 and res_g.get(1, 0) >= 1, "C09-wiring", "sampler_z return", "a value is returned only where ber_exp answered true (no return is reachable when it always answers false)",
+            f"returns reachable with ber_exp always false: {res_g.get(0)}, always true: {res_g.get(1)}", key="ret-guard")
     dr = [dd for dd in draws if dd[0] == "draw"]
     R.check(len(dr) >= 3 and all(dd[2] == "param" for dd in dr), "C09-wiring", "sampler_z draws", f"{len(dr)} draws, all from the generator parameter", f"draws: {dr[:4]}", key="draws")
     R.analysed["unsupported"] = S.unsupported[:10]
